@@ -88,10 +88,13 @@ fn prefix(i: u8) -> Nlri {
     v4(10, 1 + i, 0, 0, 24)
 }
 
-type Snap = (u32, usize, Vec<Attribute>, Option<Nexthop>);
+/// What a consumer holds of a path: id, source, attributes, next hop and whether the source was
+/// LLGR-stale when it was told (the exporter adds LLGR_STALE from that flag, so it is part of
+/// the exportable state: a path that turns LLGR-stale while it stays best must be re-notified).
+type Snap = (u32, usize, Vec<Attribute>, Option<Nexthop>, bool);
 
 fn snap(p: &rustybgp_table::Path) -> Snap {
-    (p.local_path_id, Arc::as_ptr(&p.source) as usize, p.attr.as_ref().clone(), p.nexthop)
+    (p.local_path_id, Arc::as_ptr(&p.source) as usize, p.attr.as_ref().clone(), p.nexthop, p.source.is_llgr_stale())
 }
 
 pub struct Sys {
@@ -386,7 +389,7 @@ fn diff_class<T: PartialEq>(rib: &BTreeMap<String, T>, view: &BTreeMap<String, T
 
 fn show_snap(s: &Snap) -> String {
     let lp = s.2.iter().find(|a| a.code() == Attribute::LOCAL_PREF).and_then(|a| a.value()).unwrap_or(0);
-    format!("[id{} src@{:x} lp{} nattr{} nh{:?}]", s.0, s.1 & 0xfffff, lp, s.2.len(), s.3.map(|n| n.addr()))
+    format!("[id{} src@{:x} lp{} nattr{} nh{:?}{}]", s.0, s.1 & 0xfffff, lp, s.2.len(), s.3.map(|n| n.addr()), if s.4 { " llgr-stale-source" } else { "" })
 }
 fn show_best(m: &BTreeMap<String, Snap>) -> String {
     let v: Vec<String> = m.iter().map(|(k, s)| format!("{k}->{}", show_snap(s))).collect();
@@ -788,7 +791,7 @@ pub fn packs(oracle: &'static str) -> Vec<TableModel> {
             "llgr",
             vec![
                 ins(0, 0, 0, 0, 0), ins(0, 1, 0, 2, 0), ins(0, 0, 1, 2, 0), rem(0, 0, 0), rem(0, 1, 0),
-                ins(1, 0, 0, 1, 0), ins(1, 0, 0, 3, 0), ins(1, 1, 0, 1, 0), rem(1, 0, 0),
+                ins(1, 0, 0, 1, 0), ins(1, 0, 0, 3, 0), ins(1, 1, 0, 1, 0), rem(1, 0, 0), insf(1, 0, 0, 0, 0),
                 Op::Restale { peer: 0 }, Op::MarkLlgr { peer: 0 }, Op::DropLlgrStale { peer: 0 }, Op::DropStale { peer: 0 }, Op::Reconnect { peer: 0 },
                 Op::RestaleLlgrOnly { peer: 0 }, Op::DropNoLlgrOnly { peer: 0 },
             ],
